@@ -319,17 +319,34 @@ PRIM_RE = re.compile(r"\.compare_exchange|\.load\(|\.store\(|\.swap\(|\.fetch_|f
                      r"\)=Some\(|drop_in_place|(?<![\w.])mmap\(|(?<![\w.])munmap\(|__clone\(|Box::new\(|Box::from_raw\(|\.read\(\)|\.write\(|mem::forget|ManuallyDrop")
 
 
+# system call numbers (x86-64) by the names `sc::nr` gives them: a constant of another crate the source may name directly
+SC_NR = {"CLONE": 56, "MUNMAP": 11, "EXIT": 60, "SET_TID_ADDRESS": 218, "MMAP": 9, "FUTEX": 202, "EXIT_GROUP": 231}
+
+
 class File:
+    """the thread implementation as ONE unit: every file handed in is tokenised and their items pooled (a function is found by what
+    it is and does, wherever it lives); ROLES replace names — see `roles`"""
+
     def __init__(self, src):
-        self.toks = strip_attrs(tokenize(src))
+        raw_toks = tokenize(src)
+        # the function carrying #[panic_handler], whatever it is called
+        self.panic_fn = None
+        for i, t in enumerate(raw_toks):
+            if t.s == "panic_handler" and i >= 2 and raw_toks[i - 1].s == "[" and raw_toks[i - 2].s == "#":
+                for j in range(i, min(i + 40, len(raw_toks) - 1)):
+                    if raw_toks[j].k == "id" and raw_toks[j].s == "fn" and raw_toks[j + 1].k == "id":
+                        self.panic_fn = raw_toks[j + 1].s
+                        break
+        self.toks = strip_attrs(raw_toks)
         self.fns = parse_fns(self.toks)
         self.by_name = {}
         for f in self.fns:
             self.by_name.setdefault(f.name, []).append(f)
         self.consts = {}
-        txt = compact(self.toks)
-        for m in re.finditer(r"const (\w+):(?:u32|usize|i32|u64)=([^;]+);", txt):
+        txt = self.txt = compact(self.toks)
+        for m in re.finditer(r"(?:const|static) (\w+):[\w:<>]+=([^;{}]+);", txt):
             self.consts[m.group(1)] = m.group(2)
+        self.roles()
         # fixpoint: functions that reach a primitive
         self.interesting = set()
         changed = True
@@ -342,6 +359,36 @@ class File:
                                                           for i in range(len(f.body)) if f.body[i].k == "id" and f.body[i].s in self.by_name):
                     self.interesting.add(id(f))
                     changed = True
+
+    def roles(self):
+        """who is who, by what they are — never by what they are called:
+        block_type   the type whose methods hand out `&AtomicBool` / `&AtomicU32` (the hand-over flag and the exit word live in it):
+                     the thread shared memory block ("Tsm")
+        slot_fns     its methods whose signature mentions `Option<` : they address the result slot
+        tls_fns      the functions that read the thread pointer (`fs:0` / `tpidr_el0`)
+        tls_type     what those return a pointer to: the thread-local block
+        tls_opt      the Option-typed fields of tls_type and its methods returning an Option: `Some` = a spawned thread"""
+        owners = [f.owner for f in self.fns if f.owner and re.search(r"&('static )?Atomic(Bool|U32)\b", f.ret)]
+        self.block_type = max(set(owners), key=owners.count) if owners else None
+        self.slot_fns = {f.name for f in self.fns if f.owner == self.block_type and self.block_type and
+                         ("Option<" in f.ret or "Option<" in compact(f.body) or "value_offset" in compact(f.body)) and "alloc(" not in compact(f.body)}
+        self.tls_fns = {f.name for f in self.fns if re.search(r'asm!\("mov \{\w+\}, ?fs:0"', compact(f.body))}
+        self.tls_type = None
+        for f in self.fns:
+            if f.name in self.tls_fns:
+                m = re.search(r"\*(?:mut|const) ([A-Z]\w*)", f.ret)
+                if m:
+                    self.tls_type = m.group(1)
+        self.tls_opt = set()
+        if self.tls_type:
+            m = re.search(r"struct %s\{" % re.escape(self.tls_type), self.txt)
+            if m:
+                body = self.txt[m.end():close_paren(self.txt, m.end() - 1)]
+                for fld in split_args(body):
+                    mm = re.match(r"(?:pub(?:\([\w: ]+\))? )?(\w+):Option<", fld)
+                    if mm:
+                        self.tls_opt.add(mm.group(1))
+            self.tls_opt |= {f.name for f in self.fns if f.owner == self.tls_type and "Option<" in f.ret}
 
     def fn(self, name, owner=None, trait=None):
         for f in self.by_name.get(name, []):
@@ -362,6 +409,23 @@ class File:
             return int(m.group(1).replace("_", ""), 0)
         if tok in self.consts:
             return self.value_of(self.consts[tok], depth + 1)
+        m = re.fullmatch(r"(?:sc::)?nr::(\w+)", tok)
+        if m and m.group(1) in SC_NR:
+            return SC_NR[m.group(1)]
+        if re.fullmatch(r"[A-Z][A-Z0-9_]*", tok) and tok in SC_NR and re.search(r"use sc::nr::(\{[^}]*\b%s\b[^}]*\}|%s);" % (tok, tok), self.txt):
+            return SC_NR[tok]
+        # a constant expression: products, sums, shifts, casts of literals and named constants
+        e = re.sub(r" as [\w:]+", "", tok)
+        if re.search(r"[-+*/|&()<>]", e) and re.fullmatch(r"[\w:+\-*/|&()<> ]+", e):
+            def val(mm):
+                v = self.value_of(mm.group(0), depth + 1)
+                return str(v) if v is not None else "?"
+            e2 = re.sub(r"(?:[A-Za-z_][\w]*::)*[A-Za-z_]\w*|0x[0-9a-fA-F_]+|\d[\d_]*(?:_?[ui](?:8|16|32|64|size))?", val, e)
+            if "?" not in e2 and re.fullmatch(r"[\d+\-*/|&()<> ]+", e2):
+                try:
+                    return int(eval(e2.replace("/", "//"), {"__builtins__": {}}, {}))
+                except Exception:
+                    return None
         return None
 
     # ---- call sites of same-file functions
@@ -391,6 +455,9 @@ class File:
                 return None
             own = cur_fn.owner if (q.s == "Self" and cur_fn is not None) else q.s
             f = next((c for c in cands if c.owner == own), None)
+            if f is None and not q.s[:1].isupper():
+                # a module path (`shared::wait_for_exit(..)`, `super::tls::get_tls_ptr()`): the files are one unit here
+                f = next((c for c in cands if c.owner is None and not c.has_self), None)
             if f is None:
                 return None
             s = i - 2
